@@ -163,7 +163,237 @@ def ws_rows (M : Nat) (N : Nat) (D : Mat α) (matchi : List Nat) (matchj : List 
   some ret_5
 
 end
+section
+variable {α : Type} [Zero α]
+
+/-- the preamble of `bottleneck` on two arrays with `c1`, `c2` columns whose rows are `(birth, death)` with a death that may be non-finite (`none`): the flag, the filtered / substituted diagrams `S`, `T`, their sizes `M`, `N`, and whether the first / second `warnings.warn` was reached -/
+def bn_preamble (matching : Bool) (c1 : Nat) (c2 : Nat) (dgm1 : List (α × Option α)) (dgm2 : List (α × Option α)) : Option (Bool × (List (α × Option α)) × Nat × (List (α × Option α)) × Nat × Bool × Bool) :=
+  let warn1 := false
+  let warn2 := false
+  let return_matching := matching
+  let S := dgm1
+  let M := min S.length (c1 * S.length)
+  let (warn1_2, S_2, M_2) :=
+      if 0 < c1 * S.length then
+        let S_1 := S.filter fun p => p.2.isSome
+        if S_1.length < M then
+          let warn1_1 := true
+          let M_1 := S_1.length
+          (warn1_1, S_1, M_1)
+        else
+          (warn1, S_1, M)
+      else
+        (warn1, S, M)
+  let T := dgm2
+  let N := min T.length (c2 * T.length)
+  let (warn2_2, T_2, N_2) :=
+      if 0 < c2 * T.length then
+        let T_1 := T.filter fun p => p.2.isSome
+        if T_1.length < N then
+          let warn2_1 := true
+          let N_1 := T_1.length
+          (warn2_1, T_1, N_1)
+        else
+          (warn2, T_1, N)
+      else
+        (warn2, T, N)
+  let (S_4, M_4) :=
+      if M_2 = 0 then
+        let S_3 := [(0, some 0)]
+        let M_3 := 1
+        (S_3, M_3)
+      else
+        (S_2, M_2)
+  if N_2 = 0 then
+    let T_3 := [(0, some 0)]
+    let N_3 := 1
+    some (return_matching, S_4, M_4, T_3, N_3, warn1_2, warn2_2)
+  else
+    some (return_matching, S_4, M_4, T_2, N_2, warn1_2, warn2_2)
+/-- the preamble of `wasserstein` on two arrays with `c1`, `c2` columns whose rows are `(birth, death)` with a death that may be non-finite (`none`): the filtered / substituted diagrams `S`, `T`, their sizes `M`, `N`, and whether the first / second `warnings.warn` was reached -/
+def ws_preamble (c1 : Nat) (c2 : Nat) (dgm1 : List (α × Option α)) (dgm2 : List (α × Option α)) : Option ((List (α × Option α)) × Nat × (List (α × Option α)) × Nat × Bool × Bool) :=
+  let warn1 := false
+  let warn2 := false
+  let S := dgm1
+  let M := min S.length (c1 * S.length)
+  let (warn1_2, S_2, M_2) :=
+      if 0 < c1 * S.length then
+        let S_1 := S.filter fun p => p.2.isSome
+        if S_1.length < M then
+          let warn1_1 := true
+          let M_1 := S_1.length
+          (warn1_1, S_1, M_1)
+        else
+          (warn1, S_1, M)
+      else
+        (warn1, S, M)
+  let T := dgm2
+  let N := min T.length (c2 * T.length)
+  let (warn2_2, T_2, N_2) :=
+      if 0 < c2 * T.length then
+        let T_1 := T.filter fun p => p.2.isSome
+        if T_1.length < N then
+          let warn2_1 := true
+          let N_1 := T_1.length
+          (warn2_1, T_1, N_1)
+        else
+          (warn2, T_1, N)
+      else
+        (warn2, T, N)
+  let (S_4, M_4) :=
+      if M_2 = 0 then
+        let S_3 := [(0, some 0)]
+        let M_3 := 1
+        (S_3, M_3)
+      else
+        (S_2, M_2)
+  if N_2 = 0 then
+    let T_3 := [(0, some 0)]
+    let N_3 := 1
+    some (S_4, M_4, T_3, N_3, warn1_2, warn2_2)
+  else
+    some (S_4, M_4, T_2, N_2, warn1_2, warn2_2)
+
+end
+
 end Ref
+
+/-! ## the preamble of both functions -/
+section Preamble
+variable {α : Type}
+
+/-- a diagram of finite points as the array it is in the source (every death present) -/
+def lift (s : List (α × α)) : List (α × Option α) := s.map fun p => (p.1, some p.2)
+
+/-- the model's finite part (`filterMap`), seen as an array, is the source's `S[np.isfinite(S[:, 1]), :]` -/
+theorem lift_filterFinite (d : List (α × Option α)) :
+    lift (PersimVerif.Bottleneck.filterFinite d).1 = d.filter fun p => p.2.isSome := by
+  induction d with
+  | nil => rfl
+  | cons p d ih =>
+    obtain ⟨b, e⟩ := p
+    simp only [PersimVerif.Bottleneck.filterFinite, lift] at ih ⊢
+    cases e with
+    | none => simpa using ih
+    | some e => simp [ih]
+
+theorem lift_finitePart (d : List (α × Option α)) :
+    lift (PersimVerif.Wasserstein.finitePart d) = d.filter fun p => p.2.isSome := by
+  induction d with
+  | nil => rfl
+  | cons p d ih =>
+    obtain ⟨b, e⟩ := p
+    simp only [PersimVerif.Wasserstein.finitePart, lift] at ih ⊢
+    cases e with
+    | none => simpa using ih
+    | some e => simp [ih]
+
+theorem length_lift (s : List (α × α)) : (lift s).length = s.length := by simp [lift]
+
+/-- an array all of whose deaths are finite, as the point list the matrix region reads (rows with a non-finite death dropped) -/
+def unlift (s : List (α × Option α)) : List (α × α) := s.filterMap fun p => p.2.map fun e => (p.1, e)
+
+theorem unlift_lift (s : List (α × α)) : unlift (lift s) = s := by
+  induction s with
+  | nil => rfl
+  | cons p s ih => simp only [lift, unlift] at ih ⊢; simp [ih]
+
+/-- `M = min(S.shape[0], S.size)`, the filter under `if S.size > 0:`, the warning and the new `M` under `if S.shape[0] < M:`, for
+    an array with `c ≥ 1` columns: the filtered array, its length, and the flag "fewer rows than before" -/
+theorem side_eq (c : Nat) (hc : 0 < c) (d : List (α × Option α)) :
+    (if 0 < c * d.length then
+        if (d.filter fun p => p.2.isSome).length < min d.length (c * d.length) then
+          (true, d.filter fun p => p.2.isSome, (d.filter fun p => p.2.isSome).length)
+        else (false, d.filter fun p => p.2.isSome, min d.length (c * d.length))
+      else (false, d, min d.length (c * d.length)))
+    = (decide ((d.filter fun p => p.2.isSome).length < d.length), d.filter fun p => p.2.isSome,
+        (d.filter fun p => p.2.isSome).length) := by
+  have hmin : min d.length (c * d.length) = d.length := by
+    apply Nat.min_eq_left
+    calc d.length = 1 * d.length := (Nat.one_mul _).symm
+      _ ≤ c * d.length := Nat.mul_le_mul_right _ hc
+  have hle : (d.filter fun p => p.2.isSome).length ≤ d.length := List.length_filter_le _ _
+  rw [hmin]
+  by_cases h0 : 0 < c * d.length
+  · rw [if_pos h0]
+    by_cases h1 : (d.filter fun p => p.2.isSome).length < d.length
+    · rw [if_pos h1]; simp [h1]
+    · rw [if_neg h1]; simp [h1]; omega
+  · rw [if_neg h0]
+    have : d = [] := by
+      cases d with
+      | nil => rfl
+      | cons p d => exact absurd (Nat.mul_pos hc (by simp)) h0
+    subst this; simp
+
+/-- the model's two outputs of the finite-death filter, in terms of the source's filtered array -/
+theorem filterFinite_eq (d : List (α × Option α)) :
+    (d.filter fun p => p.2.isSome) = lift (PersimVerif.Bottleneck.filterFinite d).1 ∧
+    decide ((d.filter fun p => p.2.isSome).length < d.length) = (PersimVerif.Bottleneck.filterFinite d).2 := by
+  refine ⟨(lift_filterFinite d).symm, ?_⟩
+  rw [← lift_filterFinite, length_lift]
+  rfl
+
+theorem finitePart_eq (d : List (α × Option α)) :
+    (d.filter fun p => p.2.isSome) = lift (PersimVerif.Wasserstein.finitePart d) ∧
+    decide ((d.filter fun p => p.2.isSome).length < d.length) = PersimVerif.Wasserstein.warned d := by
+  refine ⟨(lift_finitePart d).symm, ?_⟩
+  rw [← lift_finitePart, length_lift]
+  rfl
+
+section
+variable [Zero α]
+
+/-- `if M == 0: S = np.array([[0, 0]]); M = 1` is the model's `withPlaceholder` -/
+theorem placeholder_bn (s : List (α × α)) :
+    (if (lift s).length = 0 then ([((0 : α), some (0 : α))], 1) else (lift s, (lift s).length)) =
+      (lift (PersimVerif.Bottleneck.withPlaceholder s), (PersimVerif.Bottleneck.withPlaceholder s).length) := by
+  cases s <;> simp [lift, PersimVerif.Bottleneck.withPlaceholder]
+
+/-- … and `orPlaceholder` of the Wasserstein model -/
+theorem placeholder_ws (s : List (α × α)) :
+    (if (lift s).length = 0 then ([((0 : α), some (0 : α))], 1) else (lift s, (lift s).length)) =
+      (lift (PersimVerif.Wasserstein.orPlaceholder s), (PersimVerif.Wasserstein.orPlaceholder s).length) := by
+  cases s <;> simp [lift, PersimVerif.Wasserstein.orPlaceholder]
+
+/-- **the preamble of `bottleneck`** on arrays with `c1, c2 ≥ 1` columns is the model's `filterFinite` / `withPlaceholder`: the
+    arrays `S`, `T` are the model's point lists (every death finite), `M`, `N` their lengths, and a warning is issued exactly
+    when the model's flag says so; it never raises -/
+theorem bn_preamble_eq (matching : Bool) (c1 c2 : Nat) (h1 : 0 < c1) (h2 : 0 < c2) (dgm1 dgm2 : List (α × Option α)) :
+    Ref.bn_preamble matching c1 c2 dgm1 dgm2 =
+      some (matching,
+        lift (PersimVerif.Bottleneck.withPlaceholder (PersimVerif.Bottleneck.filterFinite dgm1).1),
+        (PersimVerif.Bottleneck.withPlaceholder (PersimVerif.Bottleneck.filterFinite dgm1).1).length,
+        lift (PersimVerif.Bottleneck.withPlaceholder (PersimVerif.Bottleneck.filterFinite dgm2).1),
+        (PersimVerif.Bottleneck.withPlaceholder (PersimVerif.Bottleneck.filterFinite dgm2).1).length,
+        (PersimVerif.Bottleneck.filterFinite dgm1).2, (PersimVerif.Bottleneck.filterFinite dgm2).2) := by
+  unfold Ref.bn_preamble
+  simp only [side_eq c1 h1, side_eq c2 h2]
+  rw [← (filterFinite_eq dgm1).2, ← (filterFinite_eq dgm2).2, (filterFinite_eq dgm1).1, (filterFinite_eq dgm2).1]
+  have p1 := placeholder_bn (PersimVerif.Bottleneck.filterFinite dgm1).1
+  have p2 := placeholder_bn (PersimVerif.Bottleneck.filterFinite dgm2).1
+  by_cases h : (lift (PersimVerif.Bottleneck.filterFinite dgm2).1).length = 0
+  · rw [if_pos h] at p2 ⊢; simp only [Prod.mk.injEq] at p2; simp only [p1, ← p2.1, ← p2.2]
+  · rw [if_neg h] at p2 ⊢; simp only [Prod.mk.injEq] at p2; simp only [p1, ← p2.1, ← p2.2]
+
+/-- **the preamble of `wasserstein`**: the same statements, against the Wasserstein model's `finitePart` / `warned` /
+    `orPlaceholder` (`prepared`) -/
+theorem ws_preamble_eq (c1 c2 : Nat) (h1 : 0 < c1) (h2 : 0 < c2) (dgm1 dgm2 : List (α × Option α)) :
+    Ref.ws_preamble c1 c2 dgm1 dgm2 =
+      some (lift (PersimVerif.Wasserstein.prepared dgm1), (PersimVerif.Wasserstein.prepared dgm1).length,
+        lift (PersimVerif.Wasserstein.prepared dgm2), (PersimVerif.Wasserstein.prepared dgm2).length,
+        PersimVerif.Wasserstein.warned dgm1, PersimVerif.Wasserstein.warned dgm2) := by
+  unfold Ref.ws_preamble PersimVerif.Wasserstein.prepared
+  simp only [side_eq c1 h1, side_eq c2 h2]
+  rw [← (finitePart_eq dgm1).2, ← (finitePart_eq dgm2).2, (finitePart_eq dgm1).1, (finitePart_eq dgm2).1]
+  have p1 := placeholder_ws (PersimVerif.Wasserstein.finitePart dgm1)
+  have p2 := placeholder_ws (PersimVerif.Wasserstein.finitePart dgm2)
+  by_cases h : (lift (PersimVerif.Wasserstein.finitePart dgm2)).length = 0
+  · rw [if_pos h] at p2 ⊢; simp only [Prod.mk.injEq] at p2; simp only [p1, ← p2.1, ← p2.2]
+  · rw [if_neg h] at p2 ⊢; simp only [Prod.mk.injEq] at p2; simp only [p1, ← p2.1, ← p2.2]
+
+end
+end Preamble
 
 /-! ## `bottleneck`: Step 2 -/
 section Bottleneck
@@ -310,6 +540,18 @@ theorem bottleneckWithMatching_eq (oracle : Graph → Matching) (dgm1 dgm2 : Lis
     cases extractRows (withPlaceholder (filterFinite dgm1).1).length (withPlaceholder (filterFinite dgm2).1).length
       (augD (withPlaceholder (filterFinite dgm1).1) (withPlaceholder (filterFinite dgm2).1)) mt <;> rfl
 
+/-- **the whole routine, `matching=True`, as the chain of its translated parts**: preamble (translated), matrix (the model's
+    `augD` = the translated `aug_entry`), Step 2 (translated), extraction loop (translated) -/
+theorem bottleneck_chain_eq (oracle : Graph → Matching) (c1 c2 : Nat) (h1 : 0 < c1) (h2 : 0 < c2)
+    (dgm1 dgm2 : List (α × Option α)) :
+    bottleneckWithMatching oracle dgm1 dgm2 =
+      (Ref.bn_preamble true c1 c2 dgm1 dgm2).bind fun p =>
+        (Ref.bisect oracle p.2.2.1 p.2.2.2.2.1 (augD (unlift p.2.1) (unlift p.2.2.2.1))).bind fun r =>
+          (Ref.bn_rows p.2.2.1 p.2.2.2.2.1 (augD (unlift p.2.1) (unlift p.2.2.2.1)) r.2).map fun rows =>
+            (({ value := r.1, matching := r.2, warn1 := p.2.2.2.2.2.1, warn2 := p.2.2.2.2.2.2 } : Result α), rows) := by
+  rw [bn_preamble_eq true c1 c2 h1 h2, bottleneckWithMatching_eq]
+  simp only [Option.bind_some, unlift_lift]
+
 end BottleneckWhole
 
 /-! ## `wasserstein`: the solver call, the sum, the vectorised extraction -/
@@ -436,6 +678,25 @@ theorem wasserstein_eq (sqrt : α → α) (cp sp : α) (lsa : Mat α → List (N
   simp only []
   cases (lsa (augMatrix sqrt cp sp (prepared d1) (prepared d2))).mapM
     fun p => lookup (augMatrix sqrt cp sp (prepared d1) (prepared d2)) p.1 p.2 <;> rfl
+
+/-- **the whole routine as the chain of its translated parts**: preamble (translated), matrix (the model's `augMatrix`, whose
+    entries are the translated `aug_entry`), solver call and sum (translated), extraction (translated) -/
+theorem wasserstein_chain_eq (sqrt : α → α) (cp sp : α) (lsa : Mat α → List (Nat × Nat)) (c1 c2 : Nat) (h1 : 0 < c1) (h2 : 0 < c2)
+    (d1 d2 : Dgm α) :
+    wasserstein sqrt cp sp lsa d1 d2 =
+      match (Ref.ws_preamble c1 c2 d1 d2).bind (fun p =>
+          (Ref.assign lsa (augMatrix sqrt cp sp (unlift p.1) (unlift p.2.2.1))).bind fun r =>
+            (Ref.ws_rows p.2.1 p.2.2.2.1 (augMatrix sqrt cp sp (unlift p.1) (unlift p.2.2.1)) r.1 r.2.1).map
+              fun rows => (r.2.2, rows, p.2.2.2.2.1, p.2.2.2.2.2)) with
+      | none => .error .index
+      | some (v, rows, w1, w2) => .ok { value := v, warn1 := w1, warn2 := w2, rows := rows } := by
+  rw [ws_preamble_eq c1 c2 h1 h2, wasserstein_eq]
+  simp only [Option.bind_some, unlift_lift, matrixOf]
+  cases (Ref.assign lsa (augMatrix sqrt cp sp (prepared d1) (prepared d2))) with
+  | none => rfl
+  | some r =>
+    simp only [Option.bind_some]
+    cases Ref.ws_rows (prepared d1).length (prepared d2).length (augMatrix sqrt cp sp (prepared d1) (prepared d2)) r.1 r.2.1 <;> rfl
 
 end
 end Wasserstein
